@@ -426,6 +426,7 @@ func oracle(c Case) (evid.Info, error) {
 }
 
 func genCorpusMut(t *rapid.T) Case {
+	corpus.OddTextParsed()
 	qs := corpus.Queries()
 	q := qs[rapid.IntRange(0, len(qs)-1).Draw(t, "q")]
 	toks, _ := corpus.Lex(q)
@@ -557,6 +558,7 @@ func genSibling(t *rapid.T) Case {
 var grammar *g4.Grammar
 
 func genG4(t *rapid.T) Case {
+	corpus.OddTextParsed()
 	if grammar == nil {
 		g, err := g4.Load()
 		if err != nil {
